@@ -1,5 +1,5 @@
 (** C10 — malformed client input gets a client error, never gqlgen's own panic path. *)
-From GV Require Import Base.Prelude Model.Upload Proofs.UploadProofs Corr.Corr_C10.
+From GV Require Import Base.Prelude Model.Upload Model.UploadForm Proofs.UploadProofs Proofs.UploadFormProofs Corr.Corr_C10.
 Open Scope string_scope.
 Open Scope list_scope.
 
@@ -35,6 +35,50 @@ Theorem C10_add_upload_legacy_refuted :
   /\ is_panic (add_upload false true (VMap [("a", JVList [JVNil])]) [SegKey "a"; SegKey "x"] 0) = true.
 Proof. exact add_upload_legacy_refuted_lemma. Qed.
 Print Assumptions C10_add_upload_legacy_refuted.
+
+(** The upload form handler, for EVERY request as mime/multipart presents it (any operations / map parts, any
+    sequence of complete, cut-off and unreadable file parts, any map paths over any variables, in memory or
+    spilled to disk): every temporary file it created is removed when it returns ... *)
+Theorem C10_form_no_temp_file_left : forall f,
+  fo_removed (run_form false f) = fo_created (run_form false f) /\ leaked (run_form false f) = [].
+Proof. exact form_no_leak_lemma. Qed.
+Print Assumptions C10_form_no_temp_file_left.
+
+(** ... which is false as soon as the removal is registered only after the part was copied (a cut-off part) *)
+Theorem C10_form_late_defer_refuted :
+  leaked (run_form true {| fm_over := false; fm_spill := true; fm_ops := Some (VMap [("f", JVNil)]);
+                           fm_map := Some [("0", [(true, [SegKey "f"])])]; fm_parts := [PCut "0"] |}) = [0%nat].
+Proof. vm_compute. reflexivity. Qed.
+Print Assumptions C10_form_late_defer_refuted.
+
+(** ... it never takes the panic path, refuses an oversized request before anything is read or created ... *)
+Theorem C10_form_never_panics : forall late f, fo_result (run_form late f) <> FPanicked.
+Proof. exact form_never_panics_lemma. Qed.
+Print Assumptions C10_form_never_panics.
+Theorem C10_form_size_limit : forall late f, fm_over f = true ->
+  accepted (run_form late f) = false /\ fo_created (run_form late f) = [] /\ fo_readers (run_form late f) = [].
+Proof. exact form_over_limit_lemma. Qed.
+Print Assumptions C10_form_size_limit.
+
+(** ... hands every mapped path a reader of its own (pairwise distinct), each on a complete file part of the
+    request; and it accepts only requests all of whose parts are complete files. *)
+Theorem C10_form_readers_independent : forall late f,
+  let o := run_form late f in
+  NoDup (map fst (fo_readers o)) /\ (forall r fid, In (r, fid) (fo_readers o) -> exists key, In (PFile key fid) (fm_parts f)).
+Proof. exact form_readers_lemma. Qed.
+Print Assumptions C10_form_readers_independent.
+Theorem C10_form_accepts_only_complete : forall late f, accepted (run_form late f) = true ->
+  fm_over f = false /\ fm_ops f <> None /\ fm_map f <> None /\ forallb is_file (fm_parts f) = true.
+Proof. exact form_accepted_lemma. Qed.
+Print Assumptions C10_form_accepts_only_complete.
+
+Example C10_form_nonvacuous :
+  let f := {| fm_over := false; fm_spill := true; fm_ops := Some (VMap [("fs", JVList [JVNil; JVNil])]);
+              fm_map := Some [("0", [(true, [SegKey "fs"; SegIdx "0" 0]); (true, [SegKey "fs"; SegIdx "1" 1])])];
+              fm_parts := [PFile "0" 5] |} in
+  fo_result (run_form false f) = FAccepted (VMap [("fs", JVList [JVUpload 0; JVUpload 1])]) /\
+  fo_readers (run_form false f) = [(0, 5); (1, 5)]%nat /\ fo_created (run_form false f) = [0%nat] /\ fo_removed (run_form false f) = [0%nat].
+Proof. vm_compute. repeat split; reflexivity. Qed.
 
 Example C10_nonvacuous :
   add_upload true true (VMap [("files", JVList [JVNil; JVNil]); ("x", JVLeaf 1)]) [SegKey "files"; SegIdx "1" 1] 7
